@@ -7,6 +7,7 @@ import NbioVerif.Lemmas.SrcBridgeAlloc
 #print axioms Alloc.c20_disjoint
 #print axioms Alloc.c20_frame
 #print axioms Alloc.c20_no_panic
+#print axioms Alloc.c20_pooled_class_cap
 #print axioms Alloc.c20_accepts
 #print axioms Alloc.c20_aligned_foreign_cap_counterexample
 #print axioms Alloc.src_minAligned
